@@ -3,8 +3,9 @@ import vlib
 CFG = dict(
     imports=["From Verif.Common Require Import Labels Prefix.", "From Verif.C04 Require Import Model Spec."],
     checker="check_case",
-    n=dict(quick=240, thorough=12000),
-    shard=30,
+    deps=["C36"],
+    n=dict(quick=160, thorough=12000),
+    shard=20,
     rule="histories of 10-40 operations (UpdateIPSet / DeleteIPSet / workload, host endpoint and network set updates "
          "through OnUpdate / raw UpdateEndpointOrSet / DeleteEndpoint / profile label updates and deletes) on the real "
          "SelectorAndNamedPortIndex with the overlap suppressor on (half) and off (half); small pools of shared host IPs, "
@@ -19,9 +20,10 @@ CFG = dict(
                  "op_wf: addresses fit their family, prefix lengths are within the width, ip.CIDR values are masked",
                  "op_interned: selectors with the same canonical text (what Selector.Equal compares) evaluate alike (property C06); "
                  "only used by the theorems stated against the datastore view",
-                 "the suppressor's per-set CIDR trie is modelled as the set of stored prefixes: Update/Delete/Covers are exactly that by "
-                 "C36 (c36_update, c36_delete, c36_covers); ClosestDescendants = stored prefixes strictly inside the query with none "
-                 "in between is NOT proved in C36 and is tied to the code by this correspondence run only",
+                 "the suppressor's per-set, per-family CIDR trie is the set of stored prefixes in Model.v; Trie.v re-states "
+                 "memberDeduplicator.Add/Remove on C36's trie model and proves (c04_trie_*_refines, from c36 update/delete/covers/"
+                 "closest_descendants) that each call returns the set model's answer under some order of the masked CIDRs; the "
+                 "composition over a whole history (choosing the shuffle oracle call by call) is not a separate theorem",
                  "uint64 reference counts do not overflow (nat)",
                  "an endpoint's profile ID list has no duplicates (generator domain; a duplicate makes DeleteEndpoint panic: "
                  "fixed in /repo by 6988aad from fixes/C04-duplicate-profile-ids.patch; the driver keeps a probe for it)"],
